@@ -1,5 +1,36 @@
-"""C11 - composite property checked by the system engine (see p_sys.py)."""
-from p_sys import run_prop
+"""C11 - composite property checked by the system engine (see p_sys.py), plus a process-boundary probe: the in-process engine
+builds HtlcManager from a configuration record and so never sees how main.rs wires the options; the MPP timeout the real binary
+runs with must be the configured one."""
+import json, os
+from concurrent.futures import ThreadPoolExecutor
+from p_sys import *
+
+def wiring_check(o):
+    """The real binary, started with an MPP timeout different from the payment timeout, fails a partial HTLC after the MPP timeout."""
+    import p_c19
+    from e2e import build_repo_binary
+    ok, log, binary = build_repo_binary("dev")
+    okh, logh, hb = harness_build("dev")
+    if not ok or not okh:
+        o.corr_failures.append(("/repo does not build: " + (log + logh)[-1500:], {"build_log": (log + logh)[-3000:]})); return
+    try:
+        invs = harness_run(hb, "classify", [json.dumps({"mkinv": {"pre": 0, "amount": 1000000, "signer": 1}}), json.dumps({"mkinv": {"pre": 1, "amount": 1000000, "signer": 1, "hints": [[0]]}})])
+        local_id = invs[1]["view"]["last_hops"][0]
+        cases = [dict(p_c19.DEFAULT, mpp=1, paytimeout=60), dict(p_c19.DEFAULT, mpp=2, paytimeout=7), dict(p_c19.DEFAULT, mpp=3, paytimeout=1)]
+        with ThreadPoolExecutor(3) as ex:
+            obs = list(ex.map(lambda ic: p_c19.probe(binary, ic[1], 900 + ic[0], local_id, invs[0]["bolt11"], invs[1]["bolt11"]), enumerate(cases)))
+        codes = eval_cases("C11wiring", p_c19.HDR, [p_c19.term(c, x) for c, x in zip(cases, obs)], "verdict_config", "opts * cobs")
+    except RuntimeError as ex:
+        o.corr_failures.append(("could not run the process-boundary probe: %s" % str(ex)[-1500:], {})); return
+    for code, c, x in zip(codes, cases, obs):
+        o.evaluations += 1
+        if code & 3:
+            o.monitor_failures.append(("process boundary: started with %s the binary ran with %s (time to the MPP failure of a partial HTLC in 0.1 s: %s)" % (
+                json.dumps(c), json.dumps({k: v for k, v in x.items() if k != "start_state"}), x.get("mpp_ds")), {"engine": "e2e", "options": c, "observed": x}))
+        else:
+            o.nontrivial.add("wiring:" + json.dumps(c, sort_keys=True))
 
 def run(tier, seed):
-    return run_prop("C11", tier, seed, profiles=("dev",))
+    extra = ("timeout cases tick to 1 ms before the deadline (no response allowed) and then to the deadline (all failed); restarts in the middle with aged attempts. "
+             "PLUS the real binary started with MPP timeouts 1/2/3 s and payment timeouts 60/7/1 s: a partial HTLC is failed after the MPP timeout (real time, window [-0.1, +0.8] s). ")
+    return run_property("C11", tier, seed, gen_for("C11"), rule=BASE_RULE + extra, assumptions=COMMON_ASSUME, profiles=("dev",), extra_check=wiring_check)
